@@ -13,6 +13,9 @@ import (
 
 	sdkmath "cosmossdk.io/math"
 	sdk "github.com/cosmos/cosmos-sdk/types"
+	authtypes "github.com/cosmos/cosmos-sdk/x/auth/types"
+	transfertypes "github.com/cosmos/ibc-go/v9/modules/apps/transfer/types"
+	channeltypes "github.com/cosmos/ibc-go/v9/modules/core/04-channel/types"
 
 	lptypes "github.com/sunriselayer/sunrise/x/liquiditypool/types"
 	swapkeeper "github.com/sunriselayer/sunrise/x/swap/keeper"
@@ -194,6 +197,8 @@ type env struct {
 	nPoor    int
 	partial  uint64 // pool with a position down to TICK_MIN
 	partial2 uint64
+	module   sdk.AccAddress // the swap module account (swapper of incoming IBC swaps)
+	recv     sdk.AccAddress // receiver of incoming swaps
 	variant  string // Coq term: which code variant of Validate / the queries is running
 	empty    uint64 // pool without positions
 }
@@ -272,6 +277,10 @@ func setup(seed int64) (*env, error) {
 	if _, err := h.NextBlock(time.Second); err != nil {
 		return nil, err
 	}
+	e.module = authtypes.NewModuleAddress(swaptypes.ModuleName)
+	rb := make([]byte, 20)
+	copy(rb, []byte("c03-ibc-receiver"))
+	e.recv = sdk.AccAddress(rb)
 	e.probeVariant()
 	return e, nil
 }
@@ -517,6 +526,7 @@ type caseSpec struct {
 	rate     string
 	poor     int // 0 rich sender; 1 exactly funded; 2 one short; 3 generously funded (input denom only)
 	fund     *sdkmath.Int
+	incoming bool // Keeper.SwapIncomingFund: the swap module account holds the incoming amount, a receiver gets the output
 }
 
 func (e *env) balRows(ctx sdk.Context, sender sdk.AccAddress, pools []uint64) []string {
@@ -529,6 +539,7 @@ func (e *env) balRows(ctx sdk.Context, sender sdk.AccAddress, pools []uint64) []
 	add(1, sender)
 	add(2, e.provider)
 	add(3, e.byst)
+	add(4, e.recv)
 	for _, p := range pools {
 		add(1000+2*int64(p), lptypes.NewPoolAddress(p))
 		add(1001+2*int64(p), lptypes.NewPoolFeesAddress(p))
@@ -608,6 +619,16 @@ func (e *env) query(out bool, has bool, route swaptypes.Route, amount sdkmath.In
 	return obsResp{ok: true, tree: r.Result, fee: r.InterfaceProviderFee, amt: r.AmountOut}
 }
 
+// sweepModule empties the swap module account (into the LP's account).
+func (e *env) sweepModule() {
+	ctx := e.h.Ctx()
+	if bal := e.h.App.BankKeeper.GetAllBalances(ctx, e.module); !bal.IsZero() {
+		if err := e.h.App.BankKeeper.SendCoins(ctx, e.module, e.lp, bal); err != nil {
+			panic(err)
+		}
+	}
+}
+
 func (e *env) newPoor() sdk.AccAddress {
 	e.nPoor++
 	b := make([]byte, 20)
@@ -620,7 +641,7 @@ func (e *env) runCase(cs caseSpec) (string, map[string]any, obsResp) {
 	e.setRate(cs.rate)
 	route := cs.route.toProto()
 	info := map[string]any{"tag": cs.tag, "exact_out": cs.out, "route": cs.route.String(), "amount": cs.amount.String(),
-		"provider": cs.provider, "fee_rate": cs.rate, "poor_sender": cs.poor}
+		"provider": cs.provider, "fee_rate": cs.rate, "poor_sender": cs.poor, "incoming_ibc_fund": cs.incoming}
 	// unrecorded look at the quote: used to place the limit and to fund a poor sender
 	e.rec.reset()
 	pre := e.query(cs.out, cs.provider, route, cs.amount)
@@ -657,7 +678,22 @@ func (e *env) runCase(cs caseSpec) (string, map[string]any, obsResp) {
 	}
 	info["limit"] = limit.String()
 	sender := e.rich
-	if cs.poor > 0 {
+	if cs.incoming {
+		// what the transfer module has done when SwapIncomingFund runs: the module account holds
+		// the incoming amount (= amount_in, resp. max_amount_in) of the input denom, and only that
+		sender = e.module
+		e.sweepModule()
+		inc := cs.amount
+		if cs.out {
+			inc = limit
+		}
+		if inc.IsPositive() {
+			if err := e.h.App.BankKeeper.SendCoins(e.h.Ctx(), e.lp, e.module, sdk.NewCoins(sdk.NewCoin(cs.route.din, inc))); err != nil {
+				panic(err)
+			}
+		}
+		info["incoming"] = inc.String() + cs.route.din
+	} else if cs.poor > 0 {
 		sender = e.newPoor()
 		need := cs.amount
 		if cs.out {
@@ -706,6 +742,21 @@ func (e *env) runCase(cs caseSpec) (string, map[string]any, obsResp) {
 	}
 	var mobs obsResp
 	err := apph.Tx(e.h.Ctx(), func(ctx sdk.Context) error {
+		if cs.incoming {
+			inc, md := cs.amount, swaptypes.SwapMetadata{InterfaceProvider: prov, Route: &route}
+			if cs.out {
+				inc = limit
+				md.AmountStrategy = &swaptypes.SwapMetadata_ExactAmountOut{ExactAmountOut: &swaptypes.ExactAmountOut{AmountOut: cs.amount}}
+			} else {
+				md.AmountStrategy = &swaptypes.SwapMetadata_ExactAmountIn{ExactAmountIn: &swaptypes.ExactAmountIn{MinAmountOut: limit}}
+			}
+			res, fee, er := e.k.SwapIncomingFund(ctx, channeltypes.Packet{}, e.module,
+				transfertypes.FungibleTokenPacketData{Denom: cs.route.din, Amount: inc.String(), Sender: "remote", Receiver: e.recv.String()}, md)
+			if er == nil {
+				mobs = obsResp{ok: true, tree: res, fee: fee, amt: res.TokenOut.Amount.Sub(fee)}
+			}
+			return er
+		}
 		if cs.out {
 			r, er := e.msgSrv.SwapExactAmountOut(ctx, &swaptypes.MsgSwapExactAmountOut{Sender: sender.String(), InterfaceProvider: prov, Route: route, MaxAmountIn: limit, AmountOut: cs.amount})
 			if er == nil {
@@ -723,13 +774,16 @@ func (e *env) runCase(cs caseSpec) (string, map[string]any, obsResp) {
 		mobs = obsResp{class: errClass(err), msg: err.Error()}
 	}
 	postRows := e.balRows(e.h.Ctx(), sender, found)
+	if cs.incoming {
+		e.sweepModule() // the unspent remainder is ProcessSwappedFund's business (C11)
+	}
 	fl := make([]string, len(found))
 	for i, id := range found {
 		fl[i] = fmt.Sprint(id)
 	}
-	term := fmt.Sprintf("{| c_out := %s; c_route := %s; c_amount := %s; c_limit := %s; c_prov := %s; c_rate := %s;\n     c_found := %s; c_table := %s;\n     c_pre := %s;\n     c_post := %s;\n     c_msg := %s;\n     c_query := %s;\n     c_variant := %s |}",
+	term := fmt.Sprintf("{| c_out := %s; c_route := %s; c_amount := %s; c_limit := %s; c_prov := %s; c_rate := %s;\n     c_found := %s; c_table := %s;\n     c_pre := %s;\n     c_post := %s;\n     c_msg := %s;\n     c_query := %s;\n     c_variant := %s; c_incoming := %s |}",
 		emit.Bool(cs.out), cs.route.coq(), emit.Z(cs.amount.BigInt()), emit.Z(limit.BigInt()), emit.Bool(cs.provider), emit.Z(rawDec(cs.rate)),
-		emit.List(fl), emit.List(e.tableCoq()), emit.List(preRows), emit.List(postRows), mobs.coq(), qobs.coq(), e.variant)
+		emit.List(fl), emit.List(e.tableCoq()), emit.List(preRows), emit.List(postRows), mobs.coq(), qobs.coq(), e.variant, emit.Bool(cs.incoming))
 	if mobs.ok {
 		info["result"] = fmt.Sprintf("in %s out %s fee %s amount_out %s", mobs.tree.TokenIn, mobs.tree.TokenOut, mobs.fee, mobs.amt)
 	} else {
@@ -794,7 +848,15 @@ func (e *env) genCase() caseSpec {
 	}
 	cs.limitMod = emit.Pick(r, 0, 0, 0, 1, 2, 2, 3, 3)
 	cs.poor = emit.Pick(r, 0, 0, 1, 1, 1, 2, 3, 3)
-	// malformed stream
+	// malformed stream (direct messages only: the middleware validates the route before SwapIncomingFund)
+	if r.Chance(1, 5) {
+		cs.incoming = true
+		if cs.amount.IsPositive() {
+			cs.tag = "gen:incoming"
+			return cs
+		}
+		cs.incoming = false
+	}
 	if r.Chance(1, 8) {
 		cs.tag = "mut:" + e.mutate(n)
 	} else if r.Chance(1, 25) {
@@ -841,6 +903,12 @@ func (e *env) corpus() []caseSpec {
 		{tag: "corpus:zero-share", route: tiny, amount: i(1000), limit: &one, rate: "0.01", poor: 0},
 		{tag: "corpus:nested", route: nested.clone(), amount: i(123_456_789), limitMod: 0, rate: "0.01", provider: true, poor: 1},
 		{tag: "corpus:nested-exact-out", out: true, route: nested.clone(), amount: i(98_765_432), limitMod: 0, rate: "0.5", provider: true, poor: 1},
+		// settlement of swaps arriving over IBC: the module account holds only the incoming input
+		{tag: "corpus:incoming-exact-out-fee", incoming: true, out: true, route: pool("urise", "uusdc", 0), amount: i(100_000), limitMod: 2, rate: "0.01", provider: true},
+		{tag: "corpus:incoming-exact-out-series-exact-funds", incoming: true, out: true, route: ser3.clone(), amount: i(250_000), limitMod: 0, rate: "0.01", provider: true},
+		{tag: "corpus:incoming-exact-out-one-short", incoming: true, out: true, route: ser2.clone(), amount: i(250_000), limitMod: 1, rate: "0.003", provider: true},
+		{tag: "corpus:incoming-exact-in-nested-fee", incoming: true, route: nested.clone(), amount: i(55_555_555), limitMod: 0, rate: "0.01", provider: true},
+		{tag: "corpus:incoming-exact-in-no-provider", incoming: true, route: par11.clone(), amount: i(100_001), limitMod: 3, rate: "0.01"},
 		{tag: "corpus:fee-rate-one-exact-out", out: true, route: pool("urise", "uusdc", 0), amount: i(1000), limit: &huge, rate: "1", provider: true},
 		{tag: "corpus:fee-rate-one-exact-in", route: pool("urise", "uusdc", 0), amount: i(1000), limit: &one, rate: "1", provider: true},
 	}
@@ -854,7 +922,7 @@ func Run(seed int64, n int, outDir string) error {
 	}
 	defer e.h.Close()
 	st0 := e.variant
-	st := emit.NewStats("C03", seed, "one case = one real Msg/SwapExactAmountIn|Out (plus the matching query on the pre-state) over real pools with traded state; non-trivial when the route has >= 2 pool hops and the message succeeded, distinct by (direction, root strategy, depth, width, hops, provider, poor sender)")
+	st := emit.NewStats("C03", seed, "one case = one real Msg/SwapExactAmountIn|Out or Keeper.SwapIncomingFund (plus the matching query on the pre-state) over real pools with traded state; non-trivial when the route has >= 2 pool hops and the message succeeded, distinct by (direction, root strategy, depth, width, hops, provider, poor sender, direct message | incoming IBC fund)")
 	cf := &emit.CasesFile{Import: "Swap.C03Check", Runner: "run", Type: "c03_case"}
 	st.Extra["code_variant"] = st0
 	do := func(cs caseSpec) {
@@ -878,12 +946,15 @@ func Run(seed int64, n int, outDir string) error {
 			if cs.provider && m.fee.IsPositive() {
 				st.Count("ok:interface-fee>0")
 			}
-			if cs.poor > 0 {
+			if cs.incoming {
+				st.Count("ok:incoming-ibc-fund/" + dir)
+			}
+			if cs.poor > 0 || cs.incoming {
 				st.Count("ok:sender-holds-only-input")
 			}
 			st.Count(fmt.Sprintf("shape:%s/d%d", cs.route.kind, cs.route.depth()))
 			if cs.route.hops() >= 2 {
-				st.Nontriv(fmt.Sprintf("%s/%s/d%d/w%d/h%d/p%v/poor%v", dir, cs.route.kind, cs.route.depth(), cs.route.width(), cs.route.hops(), cs.provider, cs.poor > 0))
+				st.Nontriv(fmt.Sprintf("%s/%s/d%d/w%d/h%d/p%v/poor%v/inc%v", dir, cs.route.kind, cs.route.depth(), cs.route.width(), cs.route.hops(), cs.provider, cs.poor > 0, cs.incoming))
 				st.Sample(info)
 			}
 		} else {
